@@ -9,7 +9,7 @@
       root_bracketed          scipy.optimize.root_scalar(bracket=...)          -> .root
     and are constrained only by explicit hypotheses of the theorems that need them. *)
 From Coq Require Import Reals Lra Lia List Psatz.
-From WG Require Import Lib.NumpySem Lib.Plasma.
+From WG Require Import Lib.NumpySem Lib.Plasma Lib.PlasmaLoop.
 From GenC04 Require Import EomPlasma.
 Import ListNotations.
 Local Open Scope R_scope.
@@ -426,6 +426,82 @@ Proof.
 Qed.
 End Point.
 
+(** ** the loop over the grid: what the success flag means *)
+Section Profile.
+Variable e : env.
+Variables (N : nat) (c1 c2 velocityMid : R) (fields dPhidz : nat -> FieldPt) (D : Deltas) (Tplus Tminus : R).
+Notation point i := (findPlasmaProfilePoint e i c1 c2 velocityMid (fields i) (dPhidz i) D Tplus Tminus).
+Notation step := (findPlasmaProfile_step e N c1 c2 velocityMid fields dPhidz D Tplus Tminus).
+Definition run (m : nat) :=
+  fold_left (fun acc index => match acc with Some st => step st index | None => None end)
+            (seq 0 m) (Some (fun _ : nat => 0, fun _ : nat => 0, true)).
+Definition good (i : nat) := exists T v, point i = Some (T, v) /\ 0 < T.
+
+Lemma run_is_generated : run N = findPlasmaProfile e N c1 c2 velocityMid fields dPhidz D Tplus Tminus.
+Proof. reflexivity. Qed.
+
+Lemma step_spec Tp vp ok i : exists T v, point i = Some (T, v) /\
+  step (Tp, vp, ok) i =
+  Some (if Rlt_dec 0 T then (upd Tp i T, upd vp i v, ok)
+        else (upd Tp i (Tp (pyidx_sub N i 1)), upd vp i (vp (pyidx_sub N i 1)), false)).
+Proof.
+  destruct (point_cases e i c1 c2 velocityMid (fields i) (dPhidz i) D Tplus Tminus) as [T [v [H _]]].
+  exists T, v. split; [exact H|]. unfold findPlasmaProfile_step. rewrite H.
+  destruct (Rlt_dec 0 T); reflexivity.
+Qed.
+
+Lemma run_inv m : (m <= N)%nat -> exists Tp vp ok, run m = Some (Tp, vp, ok) /\
+  (ok = true <-> forall i, (i < m)%nat -> good i) /\
+  (forall i T v, (i < m)%nat -> point i = Some (T, v) -> 0 < T -> Tp i = T /\ vp i = v) /\
+  (forall i T v, (i < m)%nat -> point i = Some (T, v) -> ~ 0 < T ->
+     Tp i = (if Nat.eqb i 0 then 0 else Tp (i - 1)%nat) /\ vp i = (if Nat.eqb i 0 then 0 else vp (i - 1)%nat)) /\
+  (forall j, (m <= j)%nat -> Tp j = 0 /\ vp j = 0).
+Proof.
+  induction m as [|m IH]; intro Hm.
+  - exists (fun _ => 0), (fun _ => 0), true. split; [reflexivity|].
+    split; [split; [intros _ i Hi; lia | reflexivity]|].
+    split; [intros; lia|]. split; [intros; lia|]. intros; split; reflexivity.
+  - destruct IH as [Tp [vp [ok [Hrun [Hok [Hval [Hfail Hrest]]]]]]]; [lia|].
+    destruct (step_spec Tp vp ok m) as [T [v [Hp Hs]]].
+    unfold run. rewrite seq_S, fold_left_app. fold (run m). rewrite Hrun. cbn [fold_left Nat.add]. rewrite Hs.
+    assert (Hfail' : forall i T0 v0, (i < m)%nat -> i <> m -> point i = Some (T0, v0) -> ~ 0 < T0 ->
+              forall x y, upd Tp m x i = (if Nat.eqb i 0 then 0 else upd Tp m x (i - 1)%nat) /\
+                          upd vp m y i = (if Nat.eqb i 0 then 0 else upd vp m y (i - 1)%nat)).
+    { intros i T0 v0 Hi Hne Hpi Hn x y. rewrite (upd_other Tp m x i Hne), (upd_other vp m y i Hne).
+      destruct (Hfail i T0 v0 Hi Hpi Hn) as [A B].
+      revert A B. destruct (Nat.eqb_spec i 0); intros A B; [split; assumption|].
+      rewrite (upd_other Tp m x (i - 1)) by lia. rewrite (upd_other vp m y (i - 1)) by lia. split; assumption. }
+    destruct (Rlt_dec 0 T) as [Hpos|Hneg].
+    + exists (upd Tp m T), (upd vp m v), ok. split; [reflexivity|].
+      split; [|split; [|split]].
+      * split.
+        -- intros Ho i Hi. destruct (Nat.eq_dec i m) as [->|Hne]; [exists T, v; split; assumption|].
+           apply Hok; [exact Ho|lia].
+        -- intros Hall. apply Hok. intros i Hi. apply Hall. lia.
+      * intros i T0 v0 Hi Hpi Hp0. destruct (Nat.eq_dec i m) as [->|Hne].
+        -- rewrite Hp in Hpi. injection Hpi as <- <-. rewrite !upd_same. split; reflexivity.
+        -- rewrite !upd_other by exact Hne. apply (Hval i T0 v0); [lia|assumption|assumption].
+      * intros i T0 v0 Hi Hpi Hn. destruct (Nat.eq_dec i m) as [->|Hne].
+        -- rewrite Hp in Hpi. injection Hpi as <- <-. contradiction.
+        -- apply (Hfail' i T0 v0); [lia|assumption|assumption|assumption].
+      * intros j Hj. rewrite !upd_other by lia. apply Hrest. lia.
+    + exists (upd Tp m (Tp (pyidx_sub N m 1))), (upd vp m (vp (pyidx_sub N m 1))), false.
+      split; [reflexivity|]. split; [|split; [|split]].
+      * split; [discriminate|].
+        intros Hall. destruct (Hall m) as [T' [v' [Hp' Hpos']]]; [lia|].
+        rewrite Hp in Hp'. injection Hp' as <- <-. contradiction.
+      * intros i T0 v0 Hi Hpi Hp0. destruct (Nat.eq_dec i m) as [->|Hne].
+        -- rewrite Hp in Hpi. injection Hpi as <- <-. contradiction.
+        -- rewrite !upd_other by exact Hne. apply (Hval i T0 v0); [lia|assumption|assumption].
+      * intros i T0 v0 Hi Hpi Hn. destruct (Nat.eq_dec i m) as [->|Hne].
+        -- rewrite !upd_same. destruct (Nat.eqb_spec m 0) as [->|Hm0].
+           ++ rewrite pyidx_sub_wrap by lia. apply Hrest. lia.
+           ++ rewrite pyidx_sub_inside by lia. rewrite !upd_other by lia. split; reflexivity.
+        -- apply (Hfail' i T0 v0); [lia|assumption|assumption|assumption].
+      * intros j Hj. rewrite !upd_other by lia. apply Hrest. lia.
+Qed.
+End Profile.
+
 (** * Property theorems *)
 
 Theorem plasmaVelocity_solves_T30 : forall e fields T s1,
@@ -594,6 +670,26 @@ Theorem no_root_returns_minimum : forall e index c1 c2 velocityMid fields dPhidz
   = Some (tmin, plasmaVelocity e fields tmin (c1 - Tout30)).
 Proof. intros e index c1 c2 velocityMid fields dPhidz D Tplus Tminus. exact (point_eval_early e index c1 c2 velocityMid fields dPhidz D Tplus Tminus). Qed.
 Print Assumptions no_root_returns_minimum.
+
+(** the loop over the grid (generated findPlasmaProfile): it always returns; the success flag is
+    true EXACTLY when every point solver call returned a positive temperature; the stored profile
+    is the point solver's output at such points and a copy of the previous point elsewhere.
+    Together with profile_point_outcomes: success excludes only the (0,0) outcome -- a point where
+    the LHS has no root (positive minimum) still counts as success. *)
+Theorem profile_success_flag : forall e N c1 c2 velocityMid fields dPhidz D Tplus Tminus,
+  let point := fun i => findPlasmaProfilePoint e i c1 c2 velocityMid (fields i) (dPhidz i) D Tplus Tminus in
+  exists Tp vp ok,
+    findPlasmaProfile e N c1 c2 velocityMid fields dPhidz D Tplus Tminus = Some (Tp, vp, ok) /\
+    (ok = true <-> forall i, (i < N)%nat -> exists T v, point i = Some (T, v) /\ 0 < T) /\
+    (forall i T v, (i < N)%nat -> point i = Some (T, v) -> 0 < T -> Tp i = T /\ vp i = v) /\
+    (forall i T v, (i < N)%nat -> point i = Some (T, v) -> ~ 0 < T ->
+       Tp i = (if Nat.eqb i 0 then 0 else Tp (i - 1)%nat) /\ vp i = (if Nat.eqb i 0 then 0 else vp (i - 1)%nat)).
+Proof.
+  intros e N c1 c2 velocityMid fields dPhidz D Tplus Tminus point.
+  destruct (run_inv e N c1 c2 velocityMid fields dPhidz D Tplus Tminus N (le_n N)) as [Tp [vp [ok [H1 [H2 [H3 [H4 _]]]]]]].
+  exists Tp, vp, ok. rewrite <- run_is_generated. split; [exact H1|]. split; [exact H2|]. split; [exact H3|exact H4].
+Qed.
+Print Assumptions profile_success_flag.
 
 (** non-vacuity: an ideal gas (V = -a T^4, w = 4 a T^4) with one particle satisfies the hypotheses
     of the conservation theorems at T = 1, s1 = -1 *)
